@@ -21,6 +21,7 @@ pub fn run_stream(ctx: &mut Ctx, name: &str) {
 			concat_stream(ctx);
 		},
 		"big" => big_stream(ctx),
+		"ledger" => crate::ledger::ledger_stream(ctx),
 		"hist" => crate::hist::hist_stream(ctx),
 		"like" => crate::like::like_stream(ctx),
 		"bulk" => bulk_stream(ctx),
